@@ -53,6 +53,7 @@ void prop(DP &dp, const ref::Bytes &sched, Ctx &ctx) {
 	NormalOpts o;
 	o.gen.need_track_output = dp.chance(220);
 	o.gen.max_items = 2;
+	o.gen.max_trains = 9;          // enough trains for the shutdown traffic to exceed a track output's response budget
 	o.present_mode = dp.chance(200) ? 1 : 0;
 	n.prepare(dp, sched, o);
 	Bus bus_template = n.bus;
